@@ -65,7 +65,7 @@ func (o obs) String() string { return fmt.Sprintf("path=%s:%s tmp=%d", o.class, 
 func inspect(dir, target string, orig, fmtd []byte) obs {
 	var o obs
 	b, err := os.ReadFile(target)
-	st, err2 := os.Lstat(target)
+	st, err2 := os.Stat(target) // what the path resolves to: content through the path, mode of the file holding it
 	switch {
 	case err != nil || err2 != nil:
 		o.class, o.mode = "missing", "-"
@@ -82,20 +82,57 @@ func inspect(dir, target string, orig, fmtd []byte) obs {
 	}
 	es, _ := os.ReadDir(dir)
 	for _, e := range es {
-		if filepath.Join(dir, e.Name()) != target {
+		if filepath.Join(dir, e.Name()) != target && !strings.HasPrefix(e.Name(), "aux_") {
 			o.tmp = 1
 		}
 	}
 	return o
 }
 
-func prepare(dir string, c *fcase, content []byte, mode os.FileMode) string {
+// prepare creates the file to format.  pk = kind of path handed to xgo fmt:
+//
+//	reg      a regular file
+//	sym      a symbolic link to a regular file in the same directory
+//	symabs   a symbolic link (absolute) to a regular file in another directory
+//	chain    a symbolic link to a symbolic link to a regular file
+//	hard     a regular file with a second hard link
+//
+// Auxiliary entries in the directory are named aux_*; "the file's path" is read through the path
+// (os.ReadFile / os.Stat follow links): content reachable through it, mode of the file holding it.
+func prepare(dir string, c *fcase, content []byte, mode os.FileMode, pk string) string {
 	os.RemoveAll(dir)
+	os.RemoveAll(dir + ".aux")
 	os.MkdirAll(dir, 0o755)
 	p := filepath.Join(dir, c.sf.name)
-	os.WriteFile(p, content, 0o600)
-	os.Chmod(p, mode)
+	mk := func(f string) {
+		os.WriteFile(f, content, 0o600)
+		os.Chmod(f, mode)
+	}
+	switch pk {
+	case "sym":
+		mk(filepath.Join(dir, "aux_real_"+c.sf.name))
+		os.Symlink("aux_real_"+c.sf.name, p)
+	case "symabs":
+		os.MkdirAll(dir+".aux", 0o755)
+		real := filepath.Join(dir+".aux", "real_"+c.sf.name)
+		mk(real)
+		os.Symlink(real, p)
+	case "chain":
+		mk(filepath.Join(dir, "aux_real_"+c.sf.name))
+		os.Symlink("aux_real_"+c.sf.name, filepath.Join(dir, "aux_l2_"+c.sf.name))
+		os.Symlink("aux_l2_"+c.sf.name, p)
+	case "hard":
+		mk(p)
+		os.Link(p, filepath.Join(dir, "aux_hard_"+c.sf.name))
+	default:
+		mk(p)
+	}
 	return p
+}
+
+func cleanup(dir string) {
+	os.RemoveAll(dir)
+	os.RemoveAll(dir + ".aux")
 }
 
 func runCmd(timeout time.Duration, name string, args ...string) (int, string) {
@@ -122,6 +159,7 @@ const traceSet = "trace=%file,%desc,%process"
 
 type task struct {
 	kind  string // ref | kill | sinject | rerun
+	pk    string // path kind (see prepare)
 	c     *fcase
 	mode  os.FileMode
 	K     int
@@ -185,8 +223,8 @@ func runRef(t *task) *result {
 	r := &result{}
 	c := t.c
 	dir := t.dir()
-	defer os.RemoveAll(dir)
-	p := prepare(dir, c, c.sf.src, t.mode)
+	defer cleanup(dir)
+	p := prepare(dir, c, c.sf.src, t.mode, t.pk)
 	log := dir + ".strace"
 	defer os.Remove(log)
 	rc, out := runCmd(60*time.Second, "strace", "-f", "-b", "execve", "-o", log, "-e", traceSet, xgoBin, "fmt", p)
@@ -227,7 +265,14 @@ func runRef(t *task) *result {
 			r.oracles = append(r.oracles, oracleFail{"mode-not-kept", caseID, det})
 		}
 	}
-	r.counts = append(r.counts, "ref_runs", "mode_"+modeOct(t.mode), "ops_"+strconv.Itoa(len(ri.m.ops)))
+	r.counts = append(r.counts, "ref_runs", "mode_"+modeOct(t.mode), "ops_"+strconv.Itoa(len(ri.m.ops)), "pathkind_"+t.pk)
+	if t.pk == "sym" || t.pk == "symabs" || t.pk == "chain" {
+		if st, err := os.Lstat(p); err == nil && st.Mode()&os.ModeSymlink == 0 {
+			r.counts = append(r.counts, "symlink_replaced_by_regular_file") // accepted behaviour, see design notes
+		} else {
+			r.counts = append(r.counts, "symlink_kept")
+		}
+	}
 	if len(ri.m.failed) > 0 {
 		r.counts = append(r.counts, "ref_failed_syscalls")
 	}
@@ -268,8 +313,8 @@ func runKill(t *task) *result {
 	r := &result{}
 	c, ri := t.c, t.ref
 	dir := t.dir()
-	defer os.RemoveAll(dir)
-	p := prepare(dir, c, c.sf.src, t.mode)
+	defer cleanup(dir)
+	p := prepare(dir, c, c.sf.src, t.mode, t.pk)
 	kr := runKiller(dir, p, t.K, t.phase)
 	o := inspect(dir, p, c.sf.src, ri.fmtd)
 	if kr == nil || kr.Err != "" {
@@ -319,8 +364,8 @@ func runSInject(t *task) *result {
 	r := &result{}
 	c, ri := t.c, t.ref
 	dir := t.dir()
-	defer os.RemoveAll(dir)
-	p := prepare(dir, c, c.sf.src, t.mode)
+	defer cleanup(dir)
+	p := prepare(dir, c, c.sf.src, t.mode, t.pk)
 	log := dir + ".strace"
 	defer os.Remove(log)
 	rc, _ := runCmd(60*time.Second, "strace", "-f", "-b", "execve", "-o", log, "-e", traceSet,
@@ -353,8 +398,8 @@ func runRerun(t *task, small *fcase) *result {
 	r := &result{}
 	c, ri := t.c, t.ref
 	dir := t.dir()
-	defer os.RemoveAll(dir)
-	p := prepare(dir, c, c.sf.src, t.mode)
+	defer cleanup(dir)
+	p := prepare(dir, c, c.sf.src, t.mode, t.pk)
 	kr := runKiller(dir, p, t.K, "before")
 	if kr == nil || kr.Err != "" {
 		r.counts = append(r.counts, "killer_failed")
@@ -523,8 +568,8 @@ func main() {
 			o.Count("size_ge200k")
 		}
 	}
-	id := func(c *fcase, mode os.FileMode, kind string, K int, phase string) string {
-		return fmt.Sprintf("s%d:%s:f%d:m%s:%s:%d:%s", seed, tierTag, c.idx, modeOct(mode), kind, K, phase)
+	id := func(c *fcase, mode os.FileMode, pk, kind string, K int, phase string) string {
+		return fmt.Sprintf("s%d:%s:f%d:m%s.%s:%s:%d:%s", seed, tierTag, c.idx, modeOct(mode), pk, kind, K, phase)
 	}
 	want := func(t *task) bool {
 		return replayID == "" || t.id == replayID || (t.kind == "ref" && strings.HasPrefix(replayID, strings.Join(strings.Split(t.id, ":")[:4], ":")+":"))
@@ -538,8 +583,28 @@ func main() {
 			if mi > 0 && !thorough && c.idx != (mi-1+int(seed))%len(cases) {
 				continue
 			}
-			t := &task{kind: "ref", c: c, mode: md}
-			t.id = id(c, md, "ref", 0, "-")
+			t := &task{kind: "ref", c: c, mode: md, pk: "reg"}
+			t.id = id(c, md, "reg", "ref", 0, "-")
+			if want(t) {
+				refs = append(refs, t)
+			}
+		}
+	}
+	// other kinds of path: symlinks (same dir, other dir, chain) and a hard-linked file
+	kinds := []string{"sym", "symabs", "chain", "hard"}
+	kmodes := []os.FileMode{0o640, 0o444, 0o600, 0o644, 0o755}
+	for ki, pk := range kinds {
+		for _, c := range cases {
+			if thorough {
+				if c.idx%3 != ki%3 {
+					continue
+				}
+			} else if c.idx != (ki+int(seed))%len(cases) {
+				continue
+			}
+			md := kmodes[(ki+c.idx+int(seed))%len(kmodes)]
+			t := &task{kind: "ref", c: c, mode: md, pk: pk}
+			t.id = id(c, md, pk, "ref", 0, "-")
 			if want(t) {
 				refs = append(refs, t)
 			}
@@ -565,7 +630,10 @@ func main() {
 		if ri == nil || ri.m == nil || ri.nKiller == 0 {
 			continue
 		}
-		full := thorough || rt.mode == 0o644
+		// quick: regular 0644 files as before; every crash point ("before") of the read-only (0444)
+		// and the executable (0755) file; the points around the rename for the other path kinds
+		roExec := rt.pk == "reg" && (rt.mode == 0o444 || rt.mode == 0o755)
+		full := thorough || rt.mode == 0o644 || roExec || rt.pk != "reg"
 		if !full {
 			continue
 		}
@@ -580,6 +648,14 @@ func main() {
 				}
 				if !thorough {
 					switch {
+					case rt.pk != "reg":
+						if ph == "after" || K < ri.nKiller-2 {
+							continue
+						}
+					case roExec:
+						if ph == "after" {
+							continue
+						}
 					case c.idx <= 1:
 					case c.sf.kind == "gen_large" || c.sf.kind == "gen_medium":
 						if ph == "after" {
@@ -591,15 +667,15 @@ func main() {
 						}
 					}
 				}
-				t := &task{kind: "kill", c: c, mode: rt.mode, K: K, phase: ph, ref: ri}
-				t.id = id(c, rt.mode, "kill", K, ph)
+				t := &task{kind: "kill", c: c, mode: rt.mode, pk: rt.pk, K: K, phase: ph, ref: ri}
+				t.id = id(c, rt.mode, rt.pk, "kill", K, ph)
 				if want(t) {
 					tasks = append(tasks, t)
 				}
 			}
 		}
 		// strace-placed kills for system calls that occur exactly once among the mutating calls
-		if thorough || c.idx < 2 {
+		if rt.pk == "reg" && (thorough || (c.idx < 2 && rt.mode == 0o644)) {
 			cnt := map[string]int{}
 			for _, n := range ri.knames {
 				cnt[n]++
@@ -612,15 +688,15 @@ func main() {
 			}
 			sort.Strings(names)
 			for j, n := range names {
-				t := &task{kind: "sinject", c: c, mode: rt.mode, K: j, sname: n, ref: ri}
-				t.id = id(c, rt.mode, "sinject", j, n)
+				t := &task{kind: "sinject", c: c, mode: rt.mode, pk: rt.pk, K: j, sname: n, ref: ri}
+				t.id = id(c, rt.mode, rt.pk, "sinject", j, n)
 				if want(t) {
 					tasks = append(tasks, t)
 				}
 			}
 		}
 		// stale temp file: kill before the last mutating call that precedes exit, then rerun
-		if small != nil && c != small && (thorough || c.idx <= 3) {
+		if small != nil && c != small && rt.pk == "reg" && (thorough || (c.idx <= 3 && rt.mode == 0o644)) {
 			K := ri.nKiller - 2
 			for j, n := range ri.knames {
 				if strings.HasPrefix(n, "rename") {
@@ -628,8 +704,8 @@ func main() {
 				}
 			}
 			if K >= 0 {
-				t := &task{kind: "rerun", c: c, mode: rt.mode, K: K, ref: ri}
-				t.id = id(c, rt.mode, "rerun", K, "-")
+				t := &task{kind: "rerun", c: c, mode: rt.mode, pk: rt.pk, K: K, ref: ri}
+				t.id = id(c, rt.mode, rt.pk, "rerun", K, "-")
 				if want(t) {
 					tasks = append(tasks, t)
 				}
@@ -667,7 +743,7 @@ func main() {
 				}
 			}
 		}
-		if n == 2*ri.nKiller-1 && placed == n && rt.mode != 0o600 {
+		if n == 2*ri.nKiller-1 && placed == n && rt.mode != 0o600 && rt.pk == "reg" {
 			b := "0"
 			if same {
 				b = "1"
